@@ -100,6 +100,25 @@ def _scenario(sym, mode_note=""):
                 rig.tick(0.1)
             sym.check(not rig.tick_errors, "tick-raised-after-correction", lambda: f"{desc}: {rig.tick_errors[:1]}")
             sym.check("FIXED" in rig.marks(), "corrected-method-did-not-run", lambda: f"{desc}: corrected method did not run, marks {rig.marks()}, state {rig.system_state}")
+            # a later failing instruction in the same engine lifetime pauses the run again: reload the original method
+            if saw_error and ctl == "none" and not inj and not restart_seen:
+                rig.user("Stop")
+                for _ in range(3):
+                    rig.tick(0.1)
+                if rig.system_state == "Stopped":
+                    try:
+                        e.set_method(Mdl.Method.from_pcode(pcode))
+                    except Exception as ex:
+                        sym.check(False, "reload-of-method-refused", f"{desc}: {ex!r}")
+                    rig.user("Start")
+                    paused_again = False
+                    for _ in range(N_TICKS):
+                        rig.tick(0.1)
+                        if rig.system_state == "Paused" and str(rig.tag("Method Status")) == "Error":
+                            paused_again = True
+                    sym.check(not rig.tick_errors, "tick-raised-in-second-run", lambda: f"{desc}: {rig.tick_errors[:1]}")
+                    sym.check(paused_again, "second-error-did-not-pause",
+                              lambda: f"{desc}: the same failing method paused the first run with an error but not a later run of the same engine (state {rig.system_state}, status {rig.tag('Method Status')!r})")
 
 
 def harness(sym):
